@@ -226,6 +226,9 @@ def run_input(prop, rp):
     if not build():
         return False, 'witness binary could not be built against /repo'
     inp = rp['input']
+    if inp.get('kind') == 'featdiff':
+        from . import featdiff
+        return featdiff.replay(inp)
     if inp.get('kind') == 'bytes' and inp.get('harness') in LEAF_TYPES:
         cmd = [VW, 'leaf', LEAF_TYPES[inp['harness']], inp['hex']]
     elif inp.get('kind') == 'rawrt':
@@ -265,6 +268,9 @@ SEARCH = [
 
 
 def search_kind(kind, seed=0):
+    if kind == 'features':
+        from . import featdiff
+        return featdiff.search()
     if not build():
         return None
     r = common.run([VW, 'search', kind, str(seed)], timeout=900)
